@@ -699,8 +699,16 @@ def _compare_loop_bodies(cur_f, ref_f):
     for a, b in zip(cl, rl):
         if ast.dump(ast.Module(body=a.body, type_ignores=[])) == ast.dump(ast.Module(body=b.body, type_ignores=[])):
             continue
+        def bound(loop):
+            # the loop variable is a bound name: both bodies see the current element under one and the same name
+            if isinstance(loop, ast.For):
+                bind = ast.Assign(targets=[loop.target], value=ast.Name(id="__ELEMENT__", ctx=ast.Load()))
+                ast.fix_missing_locations(ast.copy_location(bind, loop))
+                return [bind] + list(loop.body)
+            return list(loop.body)
+
         try:
-            ta, tb = block_table(a.body, unroll=0, fi=cur_f, max_paths=3000), block_table(b.body, unroll=0, fi=ref_f, max_paths=3000)
+            ta, tb = block_table(bound(a), unroll=0, fi=cur_f, max_paths=3000), block_table(bound(b), unroll=0, fi=ref_f, max_paths=3000)
         except AnalysisError as e:
             raise AnalysisError(f"{cur_f.key}: the body of the loop at line {a.lineno} changed and is too large for a decision table ({e}): needs re-review")
         out += [(k, f"loop@{_norm_atom(u(b.target) if isinstance(b, ast.For) else u(b.test))[:30]}:{t}", n, w) for k, t, n, w in compare_tables(ta, tb)]
@@ -878,6 +886,44 @@ def compare_tables(ct, rt):
                     break
             if findings:
                 return findings
+    # ---- two early exits swapped: the reviewed version decides `A` first and, when A holds, does E and leaves; the
+    # current version decides some other reviewed condition first and leaves WITHOUT E before it ever looks at A.  No
+    # condition is new and none is gone, every row of either table exists in the other - but an input with A and the other
+    # condition now takes the other exit.  (Only exits that do something are considered, and only when the overtaking
+    # row tests nothing the reviewed table does not test.)
+    if not new and not gone and not findings:
+        def natoms(p):
+            return {k: v for k, v in _norm_atoms(p.atoms).items() if not k.startswith(("more(", "raises("))}
+
+        ref_keys = set()
+        for pr in rt:
+            ref_keys |= set(natoms(pr))
+        for pr in rt:
+            ar = natoms(pr)
+            er = [_eff_key(e) for e in _relevant(pr.effects)]
+            if not er or pr.result[0] not in ("continue", "return", "break") or not (1 <= len(ar) <= 4):
+                continue
+            for pc in ct:
+                ac = natoms(pc)
+                ec = [_eff_key(e) for e in _relevant(pc.effects)]
+                if pc.result[0] not in ("continue", "return", "break") or all(k in ec for k in er):
+                    continue
+                if not set(ac) <= ref_keys or any(ac[k] != ar[k] for k in set(ac) & set(ar)):
+                    continue  # looks at something new, or is not compatible with the reviewed exit
+                deciding = [k for k, v in ar.items() if v and k not in ac]
+                if not deciding or not (set(ac) - set(ar)):
+                    continue
+                # in the reviewed table the overtaking exit comes AFTER the deciding condition was found false
+                later = [q for q in rt if all(natoms(q).get(k) == v for k, v in ac.items()) and [_eff_key(e) for e in _relevant(q.effects)] == ec and q.result[0] == pc.result[0]]
+                if later and all(any(natoms(q).get(k) is False for k in deciding) for q in later):
+                    other = sorted(set(ac) - set(ar))
+                    findings.append(("condition-order", f"{deciding[0][:60]} after {other[0][:40]}", None,
+                                     f"the reviewed version tests `{deciding[0][:100]}` first and, when it holds, performs {[str(k)[:50] for k in er if k not in ec][:2]} before leaving; the current version first leaves on {[(k[:60], ac[k]) for k in other][:3]} without doing so: an input for which both hold now takes the other exit"))
+                    break
+            if findings:
+                break
+        if findings:
+            return findings
     # ---- a new condition under which the same steps are taken with a different VALUE (a fast path / special case that
     # computes something the reviewed version obtained otherwise): the current path, with the new conditions projected
     # away, corresponds to one reviewed path; its effects are of the same kinds but an operand differs
